@@ -9,7 +9,15 @@ import io
 import re
 from collections import Counter
 from . import common
-from .common import TICK, PRIO, to_ticks
+from .common import PRIO
+from .common import TICK as _TICK8, to_ticks as _to_ticks
+
+CUR = [_TICK8]          # ticks per time unit of the scenario being run (sc['tick'], default 8; see fam_floor.py)
+
+
+def to_ticks(x, unit=None):
+    return _to_ticks(x, CUR[0] if unit is None else unit)
+
 
 FAMILY = 3
 NAME = 'maint'
@@ -76,11 +84,15 @@ def gen(rng, size='small'):
             d = rng.choice([0, 4, 8, 16, 32])
             ext.append(('run', d))
             est += d
-    return dict(seed=rng.randint(0, 1000), mod=rng.choice([1, 3, 1 << 20]), capacity=capacity,
-                value=8 * rng.choice([0, 0, 100, -50]), table=table, ext=ext)
+    sc = dict(seed=rng.randint(0, 1000), mod=rng.choice([1, 3, 1 << 20]), capacity=capacity,
+              value=8 * rng.choice([0, 0, 100, -50]), table=table, ext=ext)
+    if rng.random() < 0.15:
+        sc['tick'] = 1 << 20       # the same scenario on a grid of 2**-20: durations that need twenty decimal digits
+    return sc
 
 
 def run_impl(sc):
+    CUR[0] = sc.get('tick', _TICK8)
     from simprocesd.model import System, EventType
     from simprocesd.model.factory_floor import Maintainer, Maintainable
     from simprocesd.model.factory_floor import maintainer as mmod
@@ -89,8 +101,8 @@ def run_impl(sc):
     with common.WeightPatch(sc['seed'], sc['mod']):
         system = System()
         env = system.env
-        cap = float('inf') if sc['capacity'] is None else sc['capacity'] / TICK
-        m = Maintainer(name='maintainer', capacity=cap, value=sc['value'] / TICK)
+        cap = float('inf') if sc['capacity'] is None else sc['capacity'] / CUR[0]
+        m = Maintainer(name='maintainer', capacity=cap, value=sc['value'] / CUR[0])
         m.initialize(env)
         hooks, results, datalog = [], [], []
         wo_ids = {}
@@ -134,15 +146,15 @@ def run_impl(sc):
 
                 def get_work_order_duration(self, tag):
                     e = self.entry(tag)
-                    return e['dur'] / TICK if e else super().get_work_order_duration(tag)
+                    return e['dur'] / CUR[0] if e else super().get_work_order_duration(tag)
 
                 def get_work_order_capacity(self, tag):
                     e = self.entry(tag)
-                    return e['cap'] / TICK if e else super().get_work_order_capacity(tag)
+                    return e['cap'] / CUR[0] if e else super().get_work_order_capacity(tag)
 
                 def get_work_order_cost(self, tag):
                     e = self.entry(tag)
-                    return e['cost'] / TICK if e else super().get_work_order_cost(tag)
+                    return e['cost'] / CUR[0] if e else super().get_work_order_cost(tag)
 
                 def start_work(self, tag):
                     hooks.append((0, self.idx, tagz(tag), to_ticks(env.now)))
@@ -198,11 +210,11 @@ def run_impl(sc):
                         if k == 'create':
                             create(x[1], x[2], x[3])
                         elif k == 'defer':
-                            env.schedule_event(x[1] / TICK, -5, make_defer(x[2], x[3], x[4]), EventType.OTHER_LOW_PRIORITY)
+                            env.schedule_event(x[1] / CUR[0], -5, make_defer(x[2], x[3], x[4]), EventType.OTHER_LOW_PRIORITY)
                         elif k == 'step':
                             env.step()
                         elif k == 'run':
-                            env.run(x[1] / TICK)
+                            env.run(x[1] / CUR[0])
                 except ValueError:
                     st = 1
                 except IndexError:
